@@ -127,6 +127,24 @@ CLAIM = {
             'children of its parameters, the union as an operand of another combine, parents changed afterwards; '
             'JSON / to_dict round trips belong to C17. R14 counts: 300 chunks, 258 result names, 299-combination '
             'grids, 300 choices (oracles), a 260-combination script (correspondence) in every run. '
+            'R15 distinct values that are merely close (magnitudes 1e-9..1e-15, relative gaps 1e-6..1e-9, '
+            'neighbouring doubles, 13th decimal): the model is a function of the exact value - theorems '
+            'setter_takes_effect_for_every_new_value (MISC), eq_is_exact / close_observations_compare_unequal, '
+            'lookup_exact, close_values_stay_distinct, union_grid_spec; tie: a script stream whose objects receive '
+            'close-but-different observations (any doubles for MISC; exact-sum pools for SUM / RATIO) with == between '
+            'them, oracles R15/observations (every update takes effect, statistics relative to the sum of the '
+            'magnitudes, == tells objects apart), combine with DISJOINT close grids (a failed exact look-up must not '
+            'fall back to a neighbour), close fixed parameters rejected, R15/get_pack_indexes. '
+            'R16 argument identity / buffer reuse: theorems merge_depends_on_contents_only, '
+            'operand_refilled_between_merges, self_merge_doubles (addresses on the heap model; arrays inside '
+            'parameters are values in the model, so that part is oracle only); oracles run the history first and '
+            'compute the references afterwards: Result.update with 0-d array buffers refilled in place / the same '
+            'buffer as value and total, one operand Result updated between merges and merged into several '
+            'receivers, a.merge(a), one operand result set refilled between merge_all_results / '
+            'append_all_results calls (replace and in-place), s.merge_all_results(s), combine_simulation_results '
+            'with caller-owned value arrays refilled in place over 2-4 calls (same array for both operands / two '
+            'parameters, same parameter object, same result set in both roles; earlier unions must not change). '
+            'Known finding (R16): an array-valued MISC observation is stored by reference. '
             'Partial: the outer loop of append_all_results (AppendAllConcatStatement) is proved only per name; the '
             'num_skipped_reps tail of merge_all_results is covered by the frame/rejection theorems and one decided '
             'instance; that a passed validation implies the merge loop cannot raise is proved under the hypotheses '
